@@ -2,26 +2,36 @@
   Property C03 — "The canonical index describes exactly the chain that ends at the head".
 
   Model: `Aqv.Model.Chain` (`BlockChain.insertChain2 / WriteBlockWithState / reorg / insert / SetHead / Stop`,
-  `HeaderChain.WriteHeader / InsertHeaderChain / SetHead`).  `U` is the static universe of blocks (hash ↦ block,
-  `World U`: valid blocks — positive difficulty, no transaction twice along one chain); `SpecInv s` is the property as
-  stated (number index = ancestry of the head and nothing above it; header, body, receipts and td retrievable for every
-  canonical block; a lookup resolves iff the transaction is in a canonical block, at that position; header/fast heads
-  on the block head); `Inv U s` is the inductive invariant implying it (`spec_of_inv`).
+  `HeaderChain.WriteHeader / InsertHeaderChain / SetHead`), mirroring /repo at 3f14ce8.  `U` is the static universe of
+  blocks (hash ↦ block, `World U`: valid blocks — positive difficulty, no transaction twice along one chain);
+  `SpecInv s` is the property as stated (number index = ancestry of the head and nothing above it; header, body, receipts
+  and td retrievable for every canonical block; a lookup resolves iff the transaction is in a canonical block, at that
+  position; header/fast heads on the block head); `Inv U s` is the inductive invariant implying it (`spec_of_inv`).
 
   Scope of the theorems (all for arbitrary histories, unbounded):
     * full imports, reorganisations to longer or SHORTER heavier branches, re-deliveries, side-chain imports on a pruned
       node, Stop+reopen: unconditional (`inv_reachable_imports`);
-    * rewinds: `SetHead(n)` to a block whose state is still available (always on an archive node) — `inv_setHead`,
-      `inv_reachable`.  A rewind to a block WITHOUT state is proved to break the property on a concrete history
-      (`setHead_stateless_witness`): known finding `setHead-stateless-leaves-index`, reproduced on the real code;
-    * after a rewind has orphaned side-chain blocks, `reorg` may return "invalid new chain": `inv_reachable` covers the
-      histories in which that error is not returned (`Admissible`), and it is proved impossible without a rewind;
+    * rewinds: `SetHead(n)` for ANY n.  When the block it lands on still has its state (always on an archive node) the
+      three heads stay equal and `SpecInv` holds (`inv_setHead`, `inv_reachable`).  Otherwise `SetHead` deliberately leaves
+      the block head on a lower block with state, below the header head (the header-first situation of the statement):
+      `GInv` is the invariant for that — index and lookups describe the chain of the HEADER head, block head and fast head
+      are blocks of that chain — and it is kept by every operation (`ginv_setHead` without premise, `ginv_insertChain`,
+      `ginv_reopen`, `ginv_reachable`); the statement read with the header head as the head (`SpecLag`) follows
+      (`spec_lag_reachable`).  Before fix 3f14ce8 an import after such a rewind broke the property (former finding
+      `sethead-stateless-leaves-index`; pre-fix variant: `setHead_stateless_witness`);
+    * ONE chain fed through `InsertChain` and `InsertHeaderChain` in any order: the number index is exactly the ancestry of
+      the header head after every mixed history (`inv_reachable_mixed`; before 3f14ce8 it was not — former finding
+      `mixed-import-stale-numbers-above-head`, pre-fix variants: `mixed_*_witness`);
+    * after a rewind has orphaned side-chain blocks, `reorg` may return "invalid new chain": `inv_reachable` /
+      `ginv_reachable` cover the histories in which that error is not returned (`Admissible`), and it is proved impossible
+      without a rewind;
     * no import ever reaches a nil dereference (`insertChain_never_panics`, `hinv_insertHeaderChain`): the two crashes
       found earlier are fixed in /repo (7235ac1, 2ee9efd) and the header-chain theorems need no side condition.
 -/
 import Aqv.Lemmas.ChainHist
 import Aqv.Lemmas.ChainHdr
 import Aqv.Lemmas.ChainMixedIdx
+import Aqv.Lemmas.ChainLag
 namespace Aqv.Props.C03
 open Aqv.Chain
 
@@ -82,6 +92,40 @@ theorem inv_reachable_imports (W : World U) (g : Blk) (archive : Bool) (hgU : U 
     | reopen => exact ⟨trivial, trivial⟩)
   exact spec_of_inv W this.2.1
 
+/-! ### the block head may lag behind the header head (`SetHead` onto a block whose state is gone) -/
+
+/-- the invariant with all heads equal is the special case -/
+theorem ginv_of_inv (W : World U) {s : St} (h : Inv U s) : GInv U s := inv_toG W h
+
+/-- `InsertChain` of any batch in a state in which the block head lags: since 3f14ce8 `insert` deletes the entries above
+    the block it makes the head, re-points stale ones below and drops the lookups into the blocks it displaces -/
+theorem ginv_insertChain (W : World U) {s : St} (h : GInv U s) (chain : List Blk) (hU : ∀ b ∈ chain, U b.id = some b)
+    (coins : List (List Bool)) (hok : (importChain s chain coins).1.err ≠ some .reorgFail) :
+    GInv U (importChain s chain coins).1.st := Aqv.Chain.ginv_importChain W h chain hU coins hok
+
+/-- `SetHead(n)` for any `n`, also onto a block whose state is gone -/
+theorem ginv_setHead (W : World U) {s : St} (h : GInv U s) (n : Nat) : GInv U (setHead s n).st :=
+  Aqv.Chain.ginv_setHead W h n
+
+theorem ginv_reopen (W : World U) {s : St} (h : GInv U s) : GInv U (reopen s) := Aqv.Chain.ginv_reopen W h
+
+/-- after every history of imports, restarts and rewinds to ANY height -/
+theorem ginv_reachable (W : World U) (ops : List Op) {s : St} (h : GInv U s) (hadm : AdmissibleG U s ops) :
+    GInv U (run s ops) := ginv_run W ops h hadm
+
+/-- the statement, read with the header head as the head, follows -/
+theorem spec_lag_of_ginv (W : World U) {s : St} (h : GInv U s) : SpecLag s := spec_of_ginv W h
+
+/-- C03 (header head as the head) after every admissible history from genesis, rewinds to any height included -/
+theorem spec_lag_reachable (W : World U) (g : Blk) (archive : Bool) (hgU : U g.id = some g) (hg0 : g.number = 0)
+    (hgt : g.txs = []) (ops : List Op) (hadm : AdmissibleG U (init g archive) ops) :
+    SpecLag (run (init g archive) ops) :=
+  spec_of_ginv W (ginv_run W ops (inv_toG W (inv_init g archive hgU hg0 hgt)) hadm)
+
+/-- with the three heads equal `SpecLag` is the property as stated -/
+theorem spec_of_spec_lag {s : St} (h : SpecLag s) (h1 : s.hhead = s.head) (h2 : s.fhead = s.head) : SpecInv s :=
+  specInv_of_specLag h h1 h2
+
 /-! ### non-vacuity: a concrete tree with a longer-lighter and a shorter-heavier branch, the same transaction on both -/
 
 def g : Blk := ⟨0, 0, 0, 100, []⟩
@@ -112,32 +156,50 @@ example :
     let s := run (init g true) [.insert [a1, a2, a3] [], .insert [b1] [], .insert [b2] []]
     s.head = 5 ∧ s.canon 3 = none ∧ s.lookup 1 = some ⟨4, 1, 0⟩ ∧ s.lookup 2 = none ∧ s.lookup 3 = none := by decide
 
-/-! ### witnesses -/
+/-! ### witnesses: what the fixes changed (pre-fix variants of `insert` / `reorg` next to the model) -/
 
-/-- Why fix 4152cc7 was needed: `BlockChain.insert` (here: the re-insertion loop of `reorg`) writes number entries and
-    deletes none.  After re-inserting the shorter heavier branch [b2, b1] over the chain a1–a2–a3 the head is b2 (height 2)
-    but height 3 still maps to a3; only the deletion loop (`reorgApply`, `delCanonAbove`) removes the entry. -/
+/-- `BlockChain.insert` BEFORE 3f14ce8: the number entry and the head markers are written; nothing is deleted, nothing is
+    re-pointed, no lookup is dropped -/
+def insertHeadPre (s : St) (b : Blk) : St :=
+  let moves := s.canon b.number != some b.id
+  { s with
+    canon := upd s.canon b.number (some b.id)
+    head := b.id
+    hhead := if moves then b.id else s.hhead
+    fhead := if moves then b.id else s.fhead }
+
+/-- Why 4152cc7 and then 3f14ce8 were needed: with an `insert` that only writes, re-inserting the shorter heavier branch
+    [b2, b1] over the chain a1–a2–a3 leaves the head on b2 (height 2) while height 3 still maps to a3.  4152cc7 added a
+    deletion loop to `reorg`; since 3f14ce8 `insert` itself deletes the entries above (and the loop in `reorg` is gone). -/
 theorem reinsert_leaves_stale_entry_witness :
     let s := run (init g true) [.insert [a1, a2, a3] [], .insert [b1] []]
-    let s' := [b2, b1].foldr reorgStep s
-    s'.head = 5 ∧ s'.canon 2 = some 5 ∧ s'.canon 3 = some 3 ∧ (reorgApply s 3 [a3, a2, a1] [b2, b1]).canon 3 = none := by
+    let pre := [b2, b1].foldr (fun x st => insertHeadPre st x) s
+    let now := [b2, b1].foldr reorgStep s
+    (pre.head = 5 ∧ pre.canon 2 = some 5 ∧ pre.canon 3 = some 3) ∧
+    (now.head = 5 ∧ now.canon 1 = some 4 ∧ now.canon 2 = some 5 ∧ now.canon 3 = none) := by
   decide
 
-/-- Known finding `setHead-stateless-leaves-index` (reproduced on the real code): on a pruning node that was restarted,
-    `SetHead(2)` lands on a block whose state is gone; the block head falls back to genesis while the header head, the
-    number index and the lookups stay at height 2.  Importing the sibling c1 then moves every head to c1 (height 1) and
-    leaves height 2 mapped to a2 and the lookups of a1, a2 resolvable: the property fails. -/
+/-- Former finding `sethead-stateless-leaves-index`, fixed by 3f14ce8.  On a pruning node that was restarted, `SetHead(2)`
+    lands on a block whose state is gone; the block head falls back to genesis while the header head, the number index
+    and the lookups stay at height 2 (by design: `GInv`).  Importing the sibling c1 then moves every head to c1
+    (height 1): the old `insert` left height 2 mapped to a2 and the lookups of a1, a2 resolvable; now height 2 is
+    unmapped and those lookups are gone. -/
 theorem setHead_stateless_witness :
     let s := run (init g false) [.insert [a1, a2, a3, a4] [], .reopen, .setHead 2]
-    let s' := run s [.insert [c1] []]
-    (s.head = 0 ∧ s.hhead = 2 ∧ s.canon 2 = some 2) ∧
-    (s'.head = 7 ∧ s'.hhead = 7 ∧ s'.canon 1 = some 7 ∧ s'.canon 2 = some 2 ∧ s'.lookup 1 = some ⟨1, 1, 0⟩) ∧
-    ¬ SpecInv s' := by
-  refine ⟨by decide, by decide, ?_⟩
-  intro h
-  have := h.above c1 (by decide) 2 (by decide)
-  revert this
+    let pre := insertHeadPre s c1
+    let now := run s [.insert [c1] []]
+    (s.head = 0 ∧ s.hhead = 2 ∧ s.canon 2 = some 2 ∧ s.lookup 2 = some ⟨2, 2, 0⟩) ∧
+    (pre.head = 7 ∧ pre.hhead = 7 ∧ pre.canon 1 = some 7 ∧ pre.canon 2 = some 2 ∧ pre.lookup 1 = some ⟨1, 1, 0⟩) ∧
+    (now.head = 7 ∧ now.hhead = 7 ∧ now.fhead = 7 ∧ now.canon 1 = some 7 ∧ now.canon 2 = none ∧ now.lookup 1 = none ∧
+      now.lookup 2 = none) := by
   decide
+
+/-- the same history is covered by the theorems: rewind onto the stateless block, import of the sibling, re-import of the
+    old branch -/
+example :
+    let ops : List Op := [.insert [a1, a2, a3, a4] [], .reopen, .setHead 2, .insert [c1] [], .insert [a1, a2] []]
+    AdmissibleG U0 (init g false) ops ∧ SpecLag (run (init g false) ops) :=
+  ⟨by decide, spec_lag_reachable world0 g false (by decide) rfl rfl _ (by decide)⟩
 
 /-- `InsertChain` never reaches a nil dereference, whatever rewinds left behind (fix 7235ac1) -/
 theorem insertChain_never_panics (W : World U) {s : St} (h : Inv U s) (chain : List Blk)
@@ -215,73 +277,71 @@ theorem writeHeader_orphan_refused_witness :
 
 Model: `XSt` (`Aqv.Model.ChainMixed`): the full-import database plus the header store; a block batch runs the full-import
 model, a header batch the header-chain model, over the shared td records / number index / head header.  The index clauses of
-C03 are read with the header head as "the head".
+C03 are read with the header head as "the head" (`HSpecInv` of the projection `toH`).
 
-For the code as written the property FAILS in mixed histories (known finding `mixed-import-stale-numbers-above-head`,
-reproduced on the real code, exhaustive small-scope evidence in `.work/patches/C03-insert-clears-numbers-above.evidence.txt`):
-`BlockChain.insert` re-points the heads to a block without deleting the number entries above it or re-pointing those below
-it, and `reorg`'s clean-up loop deletes entries of a header chain that is ahead.  Hence the full statement
+Before 3f14ce8 the property FAILED in mixed histories (former finding `mixed-import-stale-numbers-above-head`, reproduced on
+the real code; exhaustive small-scope evidence in `.work/patches/C03-insert-clears-numbers-above.evidence.txt`):
+`BlockChain.insert` re-pointed the heads to a block without deleting the number entries above it or re-pointing those below
+it, and `reorg`'s clean-up loop deleted entries of a header chain that was ahead.  With the fix the full statement holds. -/
 
-    theorem inv_reachable_mixed : ∀ mixed op lists, the number index is the ancestry of the header head, nothing above
+/-- every mixed history — block batches and header batches of any forks, lighter, equal or heavier, in any order, any
+    coin: the number index is exactly the ancestry of the header head, nothing is indexed above it, and every indexed
+    header has its td -/
+theorem inv_reachable_mixed (W : World U) (g : Blk) (hgU : U g.id = some g) (hg0 : g.number = 0)
+    (ops : List MOp) (hops : ∀ op ∈ ops, MOpOk U op) : HSpecInv (toH (xrun (xinit g) ops)) :=
+  hspec_of_inv W (mixInv_run W ops (mixInv_init g hgU hg0) hops).hinv
 
-is NOT provable; below are (a) the negation on three shortest witnesses and (b) `inv_reachable_mixed_partial`: the statement
-for histories without the offending transition — any admissible history of full imports followed by any header imports
-(excluded shape: a block import in a state in which header imports have moved the index or the head header off the chain
-of the block head). -/
+/-- no block batch of a mixed history fails with "invalid new chain" or reaches a nil dereference, and no header batch
+    reaches a nil dereference -/
+theorem mixed_never_fails (W : World U) {x : XSt} (h : MixInv U x) (chain : List Blk)
+    (hU : ∀ b ∈ chain, U b.id = some b) :
+    (∀ coins, (xImportChain x chain coins).2.1 ≠ some .reorgFail ∧ (xImportChain x chain coins).2.1 ≠ some .modelPanic) ∧
+    (∀ coins, (xImportHeaders x chain coins).2.1 ≠ some .modelPanic) := by
+  constructor
+  · intro coins
+    have h1 := stable_importChain W (mixP_stable W x.hdrs) (mixP_raiseTop h chain) chain hU coins
+    exact ⟨h1.2.1 trivial, h1.2.2⟩
+  · intro coins
+    exact (hstep_importChain W h.hinv chain hU coins).noPanic
 
-/-- (b) full imports (any admissible history: reorganisations, rewinds onto blocks with state, restarts), then header imports
-    of any forks, lighter, equal or heavier, any coin: the number index is exactly the ancestry of the header head, nothing
-    is indexed above it, and every indexed header has its td -/
-theorem inv_reachable_mixed_partial (W : World U) (g : Blk) (hgU : U g.id = some g) (hg0 : g.number = 0)
-    (hgt : g.txs = []) (ops : List Op) (hadm : Admissible U (init g true) ops)
-    (hs : List (List Blk × List Bool)) (hU : ∀ c ∈ hs, ∀ x ∈ c.1, U x.id = some x) :
-    let s := run (init g true) ops
-    HSpecInv (toH (xHeaderPhase ⟨s, s.store⟩ hs)) := by
-  intro s
-  have hI : Inv U s := inv_reachable W ops (inv_init g true hgU hg0 hgt) hadm
-  exact hspec_of_inv W (hinv_headerPhase W hs _ (hinv_of_inv W hI) hU)
+example : ∀ op ∈ ([.headers [a1, a2] [], .blocks [b1] [], .blocks [a1, a2, a3] [], .headers [b1, b2] []] : List MOp),
+    MOpOk U0 op := by decide
 
-example :
-    let s := run (init g true) [.insert [a1, a2, a3] []]
-    let x := xHeaderPhase ⟨s, s.store⟩ [([b1], []), ([b2], [])]
-    x.full.hhead = 5 ∧ x.full.head = 3 ∧ x.full.canon 1 = some 4 ∧ x.full.canon 2 = some 5 ∧ x.full.canon 3 = none := by
-  decide
-
-/-- (a1) entries ABOVE the head header: headers a1–a2, then the block b1 (sibling of a1): every head moves to b1 (height 1)
-    — a block import forces the heads onto its branch — but height 2 still maps to a2 -/
+/-- (a1) entries ABOVE the head header: headers a1–a2, then the block b1 (sibling of a1): every head moves to b1
+    (height 1) — a block import forces the heads onto its branch.  The old `insert` left height 2 mapped to a2; now the
+    entry is deleted. -/
 theorem mixed_stale_number_above_witness :
+    let x0 := xrun (xinit g) [.headers [a1, a2] []]
+    let pre := insertHeadPre x0.full b1
     let x := xrun (xinit g) [.headers [a1, a2] [], .blocks [b1] []]
-    x.full.head = 4 ∧ x.full.hhead = 4 ∧ x.full.canon 1 = some 4 ∧ x.full.canon 2 = some 2 ∧ ¬ HSpecInv (toH x) := by
-  refine ⟨by decide, by decide, by decide, by decide, ?_⟩
-  intro h
-  have := h.above b1 (by decide) 2 (by decide)
-  revert this
+    (pre.hhead = 4 ∧ pre.canon 1 = some 4 ∧ pre.canon 2 = some 2) ∧
+    (x.full.head = 4 ∧ x.full.hhead = 4 ∧ x.full.canon 1 = some 4 ∧ x.full.canon 2 = none) := by
   decide
 
 /-- (a2) a stale entry BELOW the head header: block a1, headers b1–b2 (heavier: the index follows them), then blocks a1–a2:
-    a2 extends the block head without a reorganisation, `insert` writes height 2 and moves the head header to a2, height 1
-    still maps to b1 -/
-def xBelow : XSt := xrun (xinit g) [.blocks [a1] [], .headers [b1, b2] [], .blocks [a1, a2] []]
-
+    a2 extends the block head without a reorganisation and `insert` moves the head header to a2.  The old `insert` wrote
+    height 2 only, height 1 still mapped to b1; now height 1 is re-pointed to a1. -/
 theorem mixed_stale_number_below_witness :
-    xBelow.full.head = 2 ∧ xBelow.full.hhead = 2 ∧ xBelow.full.canon 2 = some 2 ∧ xBelow.full.canon 1 = some 4 ∧
-      ¬ HSpecInv (toH xBelow) := by
-  refine ⟨by decide, by decide, by decide, by decide, ?_⟩
-  intro h
-  obtain ⟨y, hy, _, hyc, _⟩ := h.below a2 (by decide) 1 (by decide)
-  have hup : up (toH xBelow).store (a2.number - 1) (toH xBelow).hhead = some a1 := by decide
-  rw [hup] at hy
-  cases hy
-  revert hyc
+    let x1 := xrun (xinit g) [.blocks [a1] [], .headers [b1, b2] []]
+    let pre := insertHeadPre x1.full a2
+    let x := xrun (xinit g) [.blocks [a1] [], .headers [b1, b2] [], .blocks [a1, a2] []]
+    (x1.full.hhead = 5 ∧ x1.full.canon 1 = some 4) ∧
+    (pre.hhead = 2 ∧ pre.canon 2 = some 2 ∧ pre.canon 1 = some 4) ∧
+    (x.full.head = 2 ∧ x.full.hhead = 2 ∧ x.full.canon 2 = some 2 ∧ x.full.canon 1 = some 1 ∧ x.full.canon 3 = none) := by
   decide
 
-/-- (a3) entries of the header chain DELETED below the head header: block a1, headers b1–b2–x3 (heavier, ahead), then the
-    block b1 (td 120, beats a1 with td 110): `reorg` re-inserts b1 — already indexed at height 1, so the head header stays
-    on x3 — and its clean-up loop deletes heights 2 and 3, which belong to the header chain that is ahead -/
+/-- (a3) entries of the header chain ahead: block a1, headers b1–b2–x3 (heavier, ahead), then the block b1 (td 120, beats
+    a1 with td 110): `reorg` re-inserts b1 — already indexed at height 1, so the head header stays on x3.  The clean-up
+    loop that `reorg` had before 3f14ce8 deleted heights 2 and 3, which belong to the header chain; now nothing above an
+    already indexed block is touched. -/
 theorem mixed_header_entries_deleted_witness :
     let x3 : Blk := ⟨20, 5, 3, 20, []⟩
+    let x2 := xrun (xinit g) [.blocks [a1] [], .headers [b1, b2, x3] []]
     let x := xrun (xinit g) [.blocks [a1] [], .headers [b1, b2, x3] [], .blocks [b1] []]
-    x.full.head = 4 ∧ x.full.hhead = 20 ∧ x.full.canon 1 = some 4 ∧ x.full.canon 2 = none ∧ x.full.canon 3 = none := by
+    (x2.full.hhead = 20 ∧ x2.full.canon 1 = some 4 ∧
+      delCanonAbove x2.full.canon 4 2 2 = none ∧ delCanonAbove x2.full.canon 4 2 3 = none) ∧
+    (x.full.head = 4 ∧ x.full.hhead = 20 ∧ x.full.canon 1 = some 4 ∧ x.full.canon 2 = some 5 ∧
+      x.full.canon 3 = some 20) := by
   decide
 
 end Aqv.Props.C03
